@@ -212,6 +212,18 @@ impl C16 {
         // a response file left behind by an earlier build (longer than the new content) must be replaced, not patched
         for t in &tasks {
             if let Some((p, _)) = &t.rsp {
+                if t.id % 4 == 1 {
+                    // ... or one of exactly the size of the new content (an edited flag, a re-ordered list)
+                    if let Some(exp) = expected_rsp(t) {
+                        if let Some(par) = std::path::Path::new(p).parent() {
+                            if !par.as_os_str().is_empty() {
+                                let _ = std::fs::create_dir_all(par);
+                            }
+                        }
+                        let stale: String = exp.chars().map(|c| if c == '\n' { '\n' } else if c.is_ascii() { '#' } else { c }).collect();
+                        let _ = std::fs::write(p, stale);
+                    }
+                }
                 if t.id % 2 == 0 {
                     if let Some(par) = std::path::Path::new(p).parent() {
                         if !par.as_os_str().is_empty() {
